@@ -707,3 +707,32 @@ def replay_c06(path):
     o = run_tool('render', [dict(src=d['program'], ctx=d['native']['context'], templates={'m': d['module']})])[0]
     print(json.dumps(o))
     return not ('ok' in o and d['native']['expected_fragment'] in o['ok'])
+
+
+# ---------------------------------------------------------------------------------------------
+# C12: the VM's use sites of the undefined-behaviour helpers (bytecode/sites.py)
+# ---------------------------------------------------------------------------------------------
+def run_c12(prop, tier, seed):
+    import sites
+    ev = dict(engine='Bs', violations=[], known_hits=[], problems=[], coverage={})
+    err = build_native()
+    if err:
+        ev['problems'].append('engine B: native tools did not build: ' + err[-400:])
+        return ev
+    r = sites.run_sites(prop, tier, seed, run_tool)
+    ev['violations'] = r['violations']
+    ev['problems'] = r['problems']
+    ev['coverage'] = r['coverage']
+    log('[%s] engine B VM sites: %d sites x 20 (mode, operand) cells symbolic, %d z3 queries, %d disagreeing cells (%d confirmed natively); native matrix %d cells, %d unpredicted' % (
+        prop, r['coverage'].get('sites', 0), r['coverage'].get('z3_queries', 0), r['coverage'].get('disagreeing_cells', 0),
+        r['coverage'].get('confirmed_natively', 0), r['coverage'].get('native_matrix_cells', 0), r['coverage'].get('native_cells_unpredicted', 0)))
+    return ev
+
+
+def replay_c12(path):
+    import sites
+    err = build_native()
+    if err:
+        print(err)
+        return False
+    return sites.replay_site(path, run_tool)
